@@ -320,9 +320,12 @@ def cscat_interpolation(check, prog):
                                            (sym('illum_polarization'),), ()), num(1)),
                                   ('idx', ('call', TH + 'multisphere.normalize_polarization',
                                            (sym('illum_polarization'),), ()), num(0))), ()))))
+    ok = ok and canon.equal(S[2][0], a)
     check.require(ok, 'Q4-polarisation-interpolation', '_calc_cscat gamma',
-                  'gamma = arctan2(pol_y, pol_x) of the normalised polarisation', loc,
-                  fail_detail='angle is %s' % show(a)[:160])
+                  'cos and sin are both taken of 2*gamma, gamma = arctan2(pol_y, pol_x) '
+                  'of the normalised polarisation', loc,
+                  fail_detail='angles are %s and %s' % (show(a)[:120],
+                                                        show(S[2][0])[:120]))
 
 
 def co_indexed(check, prog):
